@@ -102,6 +102,7 @@ let () =
          | Some u when has_client u.u_srv (int_of_string id) -> Printf.printf "?? %s\n" line
          | _ -> douop "hconnect" (UConnectHold (zi id, bi vo)))
     | ["release"; id] -> douop "release" (URelease (zi id))
+    | ["rev"; id] -> douop "rev" (URev (zi id))
     | ["udpon"; h] -> douop "udpon" (UUdpOn (bi h))
     | "udp" :: rest -> douop "udp" (UUdp (bytes_of_hex (match rest with [f] -> f | _ -> "")))
     | "send" :: id :: rest ->
